@@ -116,12 +116,12 @@ def s_workload(reactor):
         def workload(draw):
             n = draw(st.sampled_from([1, 2, 2, 3, 4, 6]))
             threads = []
-            budget = 1500000          # bytes per workload: keeps the real-thread runs modest
+            budget = 700000           # bytes per workload: keeps the real-thread runs modest
             for _ in range(n):
                 cnt = draw(st.sampled_from([1, 2, 3, 5, 8, 20]))
                 sizes = []
                 for _ in range(cnt):
-                    s = draw(size if budget > 200000 else small)
+                    s = draw(size if budget > 70000 else small)
                     budget -= s
                     sizes.append(s)
                 threads.append(sizes)
@@ -161,8 +161,6 @@ def interpret(case, ctx):
                      "%s: %d of %d bytes received, status %s, reactor state %s: %s" % (
                          p["kind"], res["received"], res["expected"], status, json.dumps(res.get("probe")),
                          json.dumps(p)))
-        if res["problems"]:
-            _drop_worker(reactor)       # fresh reactor after a bad workload
     else:
         # no-connection / writers-stuck / not-idle: the property could not be judged on this workload
         st.inconclusive += 1
